@@ -1292,6 +1292,66 @@ pub fn gen_case(r: &mut Rng, shape: u8, k: usize, err: Option<(usize, u32)>, ear
     CallCase { cl: SideCfg::default(), sv: SideCfg::default(), reads: None, shape, md: gen_md(r, protocol_names), req, qpend: gen_pend(r, qcuts.len()), qcuts, handler, ppend: gen_pend(r, pcuts.len()), pcuts }
 }
 
+/// messages larger than the codec's buffer_size (8 KiB) and around the yield threshold (32 KiB),
+/// followed WITHOUT a Pending by small ones, so that the tail of a big message and the next
+/// message(s) share one DATA chunk (whole body in one chunk, h2-like 16384-byte chunks, or a cut
+/// a few bytes behind the big frame); constant-fill payloads keep the Coq literals small
+pub fn gen_big_case(r: &mut Rng, shape: u8, err: Option<u32>) -> CallCase {
+    let mut c = gen_case(r, shape, 3, None, false, false);
+    let big = |r: &mut Rng| {
+        let n = *r.pick(&[8188usize, 8193, 9000, 10_000, 16_379, 16_385, 20_000, 32_763, 32_769, 40_000]);
+        vec![r.below(200) as u8 + 1; n]
+    };
+    let small = |r: &mut Rng| { let n = *r.pick(&[0usize, 1, 13, 100]); r.bytes(n) };
+    let mk = |r: &mut Rng, n_after: usize| -> Vec<Item> {
+        let mut v = vec![];
+        if r.chance(1, 3) { v.push(Item::Ok(small(r))); }
+        v.push(Item::Ok(big(r)));
+        for _ in 0..n_after { v.push(Item::Ok(small(r))); }
+        if r.chance(1, 4) { v.push(Item::Ok(big(r))); v.push(Item::Ok(small(r))); }
+        v
+    };
+    let lens = |items: &[Item]| -> Vec<usize> { items.iter().filter_map(|i| if let Item::Ok(m) = i { Some(5 + m.len()) } else { None }).collect() };
+    let cuts = |r: &mut Rng, l: &[usize]| -> Vec<usize> {
+        let total: usize = l.iter().sum();
+        match r.below(4) {
+            0 => vec![],                                   // one chunk
+            1 => vec![16384; total / 16384 + 1],           // HTTP/2 default frame size
+            2 => { let first_big = l.iter().scan(0usize, |a, x| { *a += x; Some(*a) }).find(|e| *e > 8000).unwrap_or(total); vec![first_big + r.range(1, 9) as usize] }
+            _ => vec![r.range(1, total as u64) as usize],
+        }
+    };
+    if c.resp_streaming() {
+        let na = r.range(1, 3) as usize;
+        let mut items = mk(r, na);
+        if let Some(code) = err { items.push(Item::Err(gen_status(r, code, false))); }
+        let l = lens(&items);
+        c.pcuts = cuts(r, &l);
+        c.ppend = vec![];
+        let md = if let Handler::Ok(md, _) = &c.handler { md.clone() } else { vec![] };
+        c.handler = Handler::Ok(md, items);
+    }
+    if c.req_streaming() {
+        let na = r.range(1, 3) as usize;
+        let items = mk(r, na);
+        let l = lens(&items);
+        c.qcuts = cuts(r, &l);
+        c.qpend = vec![];
+        c.req = items;
+    }
+    if !c.resp_streaming() && !c.req_streaming() {
+        // unary: one big request and one big response
+        c.req = vec![Item::Ok(big(r))];
+        c.qcuts = vec![16384; 3];
+        c.qpend = vec![];
+        let md = if let Handler::Ok(md, _) = &c.handler { md.clone() } else { vec![] };
+        c.handler = Handler::Ok(md, vec![Item::Ok(big(r))]);
+        c.pcuts = vec![16384; 3];
+        c.ppend = vec![];
+    }
+    c
+}
+
 // ---- limits configured on client::Grpc / server::Grpc (audit H2, M16, M21)
 /// which limit is set: 0 server max_decoding (request), 1 client max_encoding (request),
 /// 2 server max_encoding (response), 3 client max_decoding (response)
@@ -1755,6 +1815,12 @@ fn main() {
             let early = r.chance(1, 5);
             run_case(&mut out, "edge.protocol_md", &gen_case(&mut r, shape, k, err, early, true));
         }
+        // messages above the codec buffer size sharing a DATA chunk with what follows them
+        for i in 0..(if a.thorough { 400 } else { 48 }) {
+            let shape = (i % 4) as u8;
+            let err = if i % 3 == 0 { Some(r.range(1, 16) as u32) } else { None };
+            run_case(&mut out, "call.big", &gen_big_case(&mut r, shape, err));
+        }
         limit_cases(&mut out, &mut r, a.thorough);
         merge_cases(&mut out, &mut r, if a.thorough { 1200 } else { 160 });
         // audit2 N-C02-4: caller metadata grpc-accept-encoding with a server that may compress and a
@@ -1781,7 +1847,7 @@ fn main() {
     }
     out.finish(
         IMPORTS,
-        "limit.*: max_decoding_message_size / max_encoding_message_size set on client::Grpc and server::Grpc (directly and through apply_max_message_size_config), L in {0,1,5,100}, payloads L-1/L/L+1, position 0..2, four shapes; limit.unary_merge reaches the unary client's error-merge branch. interleave.*: the handler of a streaming-request shape answers (Ok or Err) after reading j < n request messages. side.compress: gzip/deflate/zstd configured in both / one direction. The in-process transport honours Body::is_end_stream() like hyper. h2.* (a subset in the quick tier): real hyper HTTP/2 connections. call.*: real client::Grpc over an in-process transport over real server::Grpc with a scripted handler; 4 shapes x 0..5 response messages x all 17 codes x error position (handler Err before any response = trailers-only; Err item before the first message, mid-stream, after the last; none) x status messages (controls, %, UTF-8 up to U+10FFFF) / details / metadata (repeated keys, -bin values, reserved names) x request streams of 0..4 messages with metadata; request and response DATA re-cut (every prefix byte alone, fixed sizes 1..16, random, empty DATA frames) with scripted Pending on both bodies and both source streams. edge.*: protocol header names (grpc-encoding, grpc-timeout, grpc-status-details-bin) in user metadata and OK used as an error code: cases with a grpc-encoding entry or an OK error code are outside the oracle's domain (model agreement only); grpc-status-details-bin in status metadata is inside it since fix ed827503 (F-C04e: the error's details must be the handler's, the entry itself is never delivered). h2.* (thorough): the same scripts over hyper/h2 on tokio::io::duplex(256) - final observables. Non-trivial = an error outcome, or >= 2 response items, or a re-cut body. Distinct = distinct (kind, model expression).",
+        "call.big: messages of 8188..40000 bytes (around the codec buffer size 8 KiB, the HTTP/2 frame size and the yield threshold 32 KiB) followed without a Pending by small ones, in one chunk / 16384-byte chunks / cut just behind the big frame, both directions. limit.*: max_decoding_message_size / max_encoding_message_size set on client::Grpc and server::Grpc (directly and through apply_max_message_size_config), L in {0,1,5,100}, payloads L-1/L/L+1, position 0..2, four shapes; limit.unary_merge reaches the unary client's error-merge branch. interleave.*: the handler of a streaming-request shape answers (Ok or Err) after reading j < n request messages. side.compress: gzip/deflate/zstd configured in both / one direction. The in-process transport honours Body::is_end_stream() like hyper. h2.* (a subset in the quick tier): real hyper HTTP/2 connections. call.*: real client::Grpc over an in-process transport over real server::Grpc with a scripted handler; 4 shapes x 0..5 response messages x all 17 codes x error position (handler Err before any response = trailers-only; Err item before the first message, mid-stream, after the last; none) x status messages (controls, %, UTF-8 up to U+10FFFF) / details / metadata (repeated keys, -bin values, reserved names) x request streams of 0..4 messages with metadata; request and response DATA re-cut (every prefix byte alone, fixed sizes 1..16, random, empty DATA frames) with scripted Pending on both bodies and both source streams. edge.*: protocol header names (grpc-encoding, grpc-timeout, grpc-status-details-bin) in user metadata and OK used as an error code: cases with a grpc-encoding entry or an OK error code are outside the oracle's domain (model agreement only); grpc-status-details-bin in status metadata is inside it since fix ed827503 (F-C04e: the error's details must be the handler's, the entry itself is never delivered). h2.* (thorough): the same scripts over hyper/h2 on tokio::io::duplex(256) - final observables. Non-trivial = an error outcome, or >= 2 response items, or a re-cut body. Distinct = distinct (kind, model expression).",
         json!({"exhaustive": false}),
     );
 }
